@@ -125,6 +125,32 @@ def lift(inst, wd):
     return out
 
 
+def source_functions(inst, wd):
+    src = os.path.join(ROOT, 'harness', inst['pid'], inst['src'])
+    defs = ['-D%s=%s' % (k, v) for k, v in inst.get('defs', {}).items()]
+    incs = []
+    for s_ in inst.get('shims', []):
+        incs += ['-I' + (s_ if os.path.isabs(s_) else os.path.join(ROOT, 'shim', s_))]
+    incs += ['-I' + REPO, '-I' + os.path.join(REPO, 'dispenso', 'third-party'), '-I' + RT,
+             '-I' + os.path.join(ROOT, 'harness', 'common')]
+    flags = ['-std=c++14', '-O0', '-g0', '-DNDEBUG', '-fno-access-control', '-Wno-everything'] + inst.get('cflags', [])
+    for x in inst.get('preinclude', []):
+        flags += ['-include', os.path.join(ROOT, x)]
+    if not inst.get('exceptions'):
+        flags.append('-fno-exceptions')
+    out = os.path.join(wd, 'h_O0.ll')
+    rc, o, e, t = sh(['clang++-14'] + flags + defs + incs + ['-S', '-emit-llvm', src, '-o', out], timeout=300)
+    if rc != 0:
+        return []
+    names = []
+    for line in open(out):
+        if line.startswith('define '):
+            m = re.search(r'@("?)([^"(\s]+)\1\(', line)
+            if m:
+                names.append(m.group(2))
+    return names
+
+
 def mark_noinline(txt, names):
     """add the noinline attribute to the definitions of the given functions (IR text)"""
     out = []
@@ -198,9 +224,14 @@ def cbmc_cmd(cfile, inst, witness, trace=False):
     us = ['%s:%d' % (l, nthr + 1) for l in RT_LOOPS]
     for k, v in inst.get('unwindset', {}).items():
         us.append('%s:%d' % (k, v))
+    for k, v in (inst.get('_unwind_fn_resolved') or {}).items():
+        if k not in inst.get('unwindset', {}):
+            us.append('%s:%d' % (k, v))
     cmd += ['--unwindset', ','.join(us)]
     if not inst.get('no_unwinding_assertions') and not inst.get('spin_loops'):
         cmd.append('--unwinding-assertions')
+    else:
+        cmd.append('--no-unwinding-assertions')
     solver = inst.get('solver', 'cadical')
     if solver == 'kissat':
         cmd += ['--external-sat-solver', 'kissat']
@@ -356,6 +387,7 @@ def prepare_instance(inst, wd):
     t0 = time.time()
     apply_models(inst)
     ll = lift(inst, wd)
+    ll_orig = ll
     seq = inst.get('engine') == 'cbmc-seq'
     if seq:
         ll = seq_inline(ll, wd, keep=list((inst.get('intercept') or {}).keys()) + inst.get('no_inline', []),
@@ -398,9 +430,26 @@ def prepare_instance(inst, wd):
         elif 'vf_syscall(' in line and 'int64_t vf_syscall' not in line:
             site_lines[i] = -1
     funcs = sorted(n for n in em_reachable_defined(mod, em, inst))
+    # clang -O1 has already inlined most of the code under test into the harness functions; the
+    # source-level functions that were encoded are recovered from an -O0 lowering of the harness TU
+    # (every odr-used function is emitted there)
+    try:
+        funcs = sorted(set(funcs) | set(source_functions(inst, wd)))
+    except Exception:
+        pass
+    if seq:
+        # after inlining everything lives in the thread roots: report the source functions from the
+        # module as it was before inlining
+        try:
+            mod0 = llir.load(ll_orig)
+            em0 = ir2c.Emitter(mod0, {})
+            f0, _ = em0.reachable(inst.get('roots', ['vf_main']) + [n for _, n in em.seq_roots])
+            funcs = sorted(set(funcs) | set(n for n in f0 if not mod0.funcs[n].is_decl))
+        except Exception:
+            pass
     return {'cfile': cfile, 'll': ll, 'mod': mod, 'em': em, 'site_lines': site_lines,
             'functions': funcs, 'prep_s': time.time() - t0,
-            'ir_instrs': sum(len(b.instrs) for n in funcs for b in mod.funcs[n].blocks)}
+            'ir_instrs': sum(len(b.instrs) for n in funcs if n in mod.funcs for b in mod.funcs[n].blocks)}
 
 
 def em_reachable_defined(mod, em, inst):
@@ -408,7 +457,26 @@ def em_reachable_defined(mod, em, inst):
     return [n for n in funcs if not mod.funcs[n].is_decl]
 
 
+def resolve_unwind_fn(inst, cfile):
+    """'unwind_fn': {function name: bound} -> bound for every loop of that (C-level) function"""
+    uf = inst.get('unwind_fn')
+    if not uf or '_unwind_fn_resolved' in inst:
+        return
+    gb = cfile[:-2] + '.gb'
+    defs = [a for a in cbmc_cmd(cfile, inst, False) if a.startswith('-D')]
+    rc, o, e, t = sh(['goto-cc', cfile, '-I' + RT] + defs + ['-o', gb], timeout=300)
+    res = {}
+    if rc == 0:
+        rc, o, e, t = sh(['goto-instrument', '--show-loops', gb], timeout=300)
+        for m in re.finditer(r'^Loop (\S+?)\.(\d+):', o, re.M):
+            fn = m.group(1)
+            if fn in uf:
+                res['%s.%s' % (fn, m.group(2))] = uf[fn]
+    inst['_unwind_fn_resolved'] = res
+
+
 def run_cbmc(inst, prep, witness, trace=False):
+    resolve_unwind_fn(inst, prep['cfile'])
     cmd = cbmc_cmd(prep['cfile'], inst, witness, trace)
     timeout = inst.get('timeout', 600)
     rc, out, err, t = sh(cmd, timeout=timeout, mem_gb=inst.get('mem_gb', 14))
